@@ -75,6 +75,7 @@ type Knobs struct {
 	SingleTerm    bool // at most one required node-affinity term (no OR alternatives)
 	FriendlyPools bool // fewer taints / requirements so that several pools can host a pod
 	EasyPods      bool // mostly small pods with few selectors
+	NoSoftTaints    bool // no PreferNoSchedule taints on pools
 	CustomKeyHeavy  bool // pools use many operators on user-defined label keys
 	MoreInitialized bool // bias existing nodes to initialized, healthy, managed ones (disruption worlds)
 }
@@ -288,6 +289,9 @@ func Pool(t *rapid.T, i int, k Knobs) *v1.NodePool {
 		taintPct = 6
 	}
 	for j, tt := range poolTaints {
+		if k.NoSoftTaints && tt.Effect == corev1.TaintEffectPreferNoSchedule {
+			continue
+		}
 		if pct(t, taintPct, fmt.Sprintf("%s_taint%d", l, j)) {
 			np.Spec.Template.Spec.Taints = append(np.Spec.Template.Spec.Taints, tt)
 		}
